@@ -390,8 +390,10 @@ async fn run_case(root: PathBuf, ops: Vec<String>) -> Vec<String> {
                 }
                 "ok".to_owned()
             }
-            "churn" => {
-                // n times (delete key, set key = i) sent back to back: consecutive actions for the writer to batch
+            "churn" | "churnd" => {
+                // churn: n times (delete key, set key = i); churnd: n times (set key = i, delete key) -- sent back to
+                // back: consecutive actions for the writer to batch
+                let set_first = t[0] == "churnd";
                 let c: usize = t[1].parse().expect("c");
                 let n: usize = t[2].parse().expect("n");
                 let key = unhex(t[3]);
@@ -399,11 +401,13 @@ async fn run_case(root: PathBuf, ops: Vec<String>) -> Vec<String> {
                 if let Some(conn) = conns.get_mut(&c) {
                     let mut text = String::new();
                     for i in 0..n {
-                        conn.tid += 1;
-                        text.push_str(&json!({"delete": {"transactionId": conn.tid, "key": key}}).to_string());
+                        let del = json!({"delete": {"transactionId": conn.tid + if set_first { 2 } else { 1 }, "key": key}}).to_string();
+                        let set = json!({"set": {"transactionId": conn.tid + if set_first { 1 } else { 2 }, "key": key, "value": i}}).to_string();
+                        conn.tid += 2;
+                        let (first, second) = if set_first { (set, del) } else { (del, set) };
+                        text.push_str(&first);
                         text.push('\n');
-                        conn.tid += 1;
-                        text.push_str(&json!({"set": {"transactionId": conn.tid, "key": key, "value": i}}).to_string());
+                        text.push_str(&second);
                         text.push('\n');
                     }
                     conn.wr.write_all(text.as_bytes()).await.ok();
